@@ -436,6 +436,31 @@ func TestSequential(t *testing.T) {
 	})
 	r.NontrivialN(int64(len(cases)))
 	r.Count("derivation_trees", int64(len(cases)))
+	// every byte value on its own inside a message, a value and a key (a byte that the text layer prints raw and the
+	// JSON layer must escape - or the other way round - shows only when nothing else in the string forces quoting)
+	for _, opt := range []int{0, 3, 10} {
+		o := options(optKind(opt))
+		rec := &plainRecorder{}
+		nd := derive(node{mkHandler(rec, optKind(opt)), nil}, []slog.Attr{slog.String("h", "v")})
+		for b := 0; b < 256; b++ {
+			x := "x" + string([]byte{byte(b)}) + "y"
+			for k, rr := range []slog.Record{slog.NewRecord(time.Time{}, slog.LevelInfo, x, 0), slog.NewRecord(time.Time{}, slog.LevelError, "m", 0), slog.NewRecord(time.Time{}, slog.LevelWarn, "m", 0)} {
+				switch k {
+				case 1:
+					rr.AddAttrs(slog.String("k", x))
+				case 2:
+					rr.AddAttrs(slog.Int(x, 1))
+				}
+				w, cmp := logThrough(rec, o, nd, rr)
+				if cmp {
+					r.Eval(1)
+				}
+				if w != "" {
+					r.Violation(fmt.Sprintf("byte:%d:%d:%d", opt, b, k), fmt.Sprintf("options #%d, byte 0x%02x alone inside the %s: %s", opt, b, []string{"message", "value of a string attribute", "key of an attribute"}[k], w), map[string]any{"options": opt, "byte": b, "where": k})
+				}
+			}
+		}
+	}
 	r.Exhaustive(fmt.Sprintf("every attribute-count vector in {0,1,2,3}^d for d<=%d x %d handler option sets; 3 siblings per level derived before any of them logs, logged in 4 orders with records of 0/1/3 attributes; Enabled on levels -8..12; one Record (0..40 attributes) handed to two siblings", maxDepth, nOpts))
 	r.Sample(seqCase{3, []int{2, 0, 3}, 1, 77})
 	// random records against single handlers: every value kind and hostile key
